@@ -280,3 +280,25 @@ def check_framing(r, method, framework_set_length=True):
             if n != len(r.body):
                 out.append(f'Content-Length {n} but {len(r.body)} body bytes')
     return out
+
+
+def chunk_encode(payload: bytes, rng=None, sizes=None):
+    """A legal chunked transfer encoding of `payload` (plain: lower-case sizes, no extensions,
+    no trailers).  sizes: explicit chunk sizes (cycled), else random partition, else one chunk."""
+    out = bytearray()
+    n = len(payload)
+    pos = 0
+    k = 0
+    while pos < n:
+        if sizes:
+            sz = max(1, sizes[k % len(sizes)])
+        elif rng is not None:
+            sz = rng.randint(1, max(1, min(n - pos, 4096)))
+        else:
+            sz = n - pos
+        sz = min(sz, n - pos)
+        out += b'%x\r\n' % sz + payload[pos:pos + sz] + b'\r\n'
+        pos += sz
+        k += 1
+    out += b'0\r\n\r\n'
+    return bytes(out)
